@@ -173,6 +173,9 @@ var restoreCmd = &cobra.Command{
 					continue
 				}
 
+				if err != nil {
+					return fmt.Errorf("%w: %s", ErrIOHandling, arg)
+				}
 				if f.IsDir() { // directory
 					filePaths, err := file.GetFilePathsUnderDirectory(argAbsPath)
 					if err != nil {
@@ -239,6 +242,9 @@ var restoreCmd = &cobra.Command{
 					continue
 				}
 
+				if err != nil {
+					return fmt.Errorf("%w: %s", ErrIOHandling, arg)
+				}
 				if f.IsDir() { // directory
 					filePaths, err := file.GetFilePathsUnderDirectory(argAbsPath)
 					if err != nil {
